@@ -269,6 +269,20 @@ def run(ctx, chk):
     if m.ok and not getattr(chk, '_nested', False):
         mb = common.daemon_main(fb)
         allowed = set(m.reachable_bodies())
+        # (through private traits, method values and closures as well: everything ShmWriter::new can run)
+        work_ = [m.body]
+        while work_:
+            b_ = work_.pop()
+            for _, _, fn_ in common.user_calls(b_):
+                for nb_ in (common.callee_bodies(fb, fn_) if fn_ else []):
+                    if nb_.path not in allowed and nb_.crate.name in (common.SHM, common.DAEMON):
+                        allowed.add(nb_.path)
+                        work_.append(nb_)
+            for d_ in b_.closures_built():
+                nb_ = fb.body(d_)
+                if nb_ is not None and nb_.path not in allowed:
+                    allowed.add(nb_.path)
+                    work_.append(nb_)
         MUT_LAST = ('create', 'create_new', 'truncate', 'set_len', 'remove_file', 'remove_dir_all', 'remove_dir', 'rename', 'copy',
                     'ftruncate', 'unlink', 'unlinkat', 'write', 'append')
 
